@@ -272,12 +272,14 @@ def grid_shard(ctx, si, payload):
             N = int(N)
             ctx.count("times-grid")
             try:
-                times = g.generate_times(N)
+                # (a count is a count whatever its integer type: np.arange / a table column give numpy integers)
+                times = g.generate_times(N if N % 3 else (np.int64(N) if N % 2 else np.int32(N)))
             except Exception as e:
                 ctx.exception("times", f"generate_times({N}) raised for T={T_} s", e, {"N": N, "T": T_})
                 continue
-            if len(times) != N:
-                ctx.violation("times", f"N={N} instants requested, {len(times)} sampled (T={T_} s)", {"N": N, "T": T_})
+            nt_ = len(times) if getattr(times, "shape", ()) != () else -1
+            if nt_ != N:
+                ctx.violation("times", f"N={N} instants requested ({'numpy' if N % 3 == 0 else 'Python'} integer), {nt_ if nt_ >= 0 else 'a single scalar instant'} sampled (T={T_} s)", {"N": N, "T": T_})
                 continue
             off = (times - t0).sec
             want = np.arange(N) * (T_ / N)
